@@ -222,9 +222,16 @@ func init() {
 				var out string
 				var elapsed time.Duration
 				var deadlines int
+				// when the peer last handed bytes over (the valid reply, for the *-valid behaviours)
+				var feedMu sync.Mutex
+				var lastFeed, callStart time.Time
+				mark := func() { feedMu.Lock(); lastFeed = time.Now(); feedMu.Unlock() }
 				attempt := func() {
+					feedMu.Lock()
+					lastFeed, callStart = time.Time{}, time.Now()
+					feedMu.Unlock()
 					if j.real {
-						out, elapsed = realSocketRun(j.kind, j.b, op, T, speed)
+						out, elapsed = realSocketRun(j.kind, j.b, op, T, speed, mark)
 						deadlines = -1
 						return
 					}
@@ -239,7 +246,7 @@ func init() {
 						port.OnWrite = func(b []byte, at time.Time) {
 							w := parseWire(true, b)
 							if w.ok {
-								go j.b.run(w, port.Feed, stop, T)
+								go j.b.run(w, func(x []byte) { mark(); port.Feed(x) }, stop, T)
 							}
 						}
 						t0 := time.Now()
@@ -267,7 +274,7 @@ func init() {
 					conn.OnWrite = func(b []byte, at time.Time) {
 						w := parseWire(isRTUKind(j.kind), b)
 						if w.ok {
-							go j.b.run(w, conn.Feed, stop, T)
+							go j.b.run(w, func(x []byte) { mark(); conn.Feed(x) }, stop, T)
 						}
 					}
 					base := len(conn.Deadlines)
@@ -290,8 +297,29 @@ func init() {
 				if j.kind == "rtu-serial" {
 					margin += 12 * time.Millisecond // the serial read granularity (10 ms) documented in serial.go
 				}
+				// scheduling jitter of this machine right now (oversleep of a 5 ms sleep): a loaded
+				// machine widens the margin instead of raising an alarm
+				jitter := time.Duration(0)
+				for k := 0; k < 3; k++ {
+					t := time.Now()
+					time.Sleep(5 * time.Millisecond)
+					if o := time.Since(t) - 5*time.Millisecond; o > jitter {
+						jitter = o
+					}
+				}
+				margin += 4 * jitter
+				lateFeed := false
 				for try := 0; try < 3; try++ { // a bound is only reported when three consecutive runs exceed it
 					attempt()
+					// a "valid reply before the timeout" run only counts when the peer really handed the
+					// reply over at least 15 ms before the deadline (an overslept peer proves nothing)
+					feedMu.Lock()
+					lateFeed = strings.HasSuffix(j.b.name, "-valid") && !strings.HasPrefix(out, "ok:") &&
+						(lastFeed.IsZero() || lastFeed.After(callStart.Add(T-15*time.Millisecond)))
+					feedMu.Unlock()
+					if lateFeed {
+						continue
+					}
 					if elapsed <= T+margin || out == "hung" {
 						break
 					}
@@ -312,6 +340,8 @@ func init() {
 				switch {
 				case j.b.name == "silence" && out != "err:ErrRequestTimedOut":
 					res.Add(Finding{Kind: "property", Check: "silence-timeout", Line: label, Impl: out, Expect: "err:ErrRequestTimedOut"})
+				case lateFeed:
+					res.Note(fmt.Sprintf("C07 %s: the peer handed its reply over too late in three attempts (machine overloaded?); no verdict", label))
 				case strings.HasSuffix(j.b.name, "-valid") && !strings.HasPrefix(out, "ok:"):
 					if !(isRTUKind(j.kind) && j.b.name == "foreign-then-late-valid") { // RTU has no ids: a frame from another unit ends the exchange
 						note := "a valid reply that arrived before the timeout was not returned"
@@ -355,7 +385,7 @@ func newTimedClient(kind string, conn *TimedConn, T time.Duration, speed uint) (
 }
 
 // realSocketRun: the real Open() over loopback sockets against a scripted peer.
-func realSocketRun(kind string, b peerBehaviour, op *Op, T time.Duration, speed uint) (string, time.Duration) {
+func realSocketRun(kind string, b peerBehaviour, op *Op, T time.Duration, speed uint, mark func()) (string, time.Duration) {
 	rtu := isRTUKind(kind)
 	stop := make(chan struct{})
 	defer close(stop)
@@ -374,7 +404,7 @@ func realSocketRun(kind string, b peerBehaviour, op *Op, T time.Duration, speed 
 			}
 			w := parseWire(rtu, buf[:n])
 			if w.ok {
-				b.run(w, func(x []byte) { pc.WriteToUDP(x, from) }, stop, T)
+				b.run(w, func(x []byte) { mark(); pc.WriteToUDP(x, from) }, stop, T)
 			}
 		}()
 		mc, err := modbus.NewClient(&modbus.ClientConfiguration{URL: kind + "://" + pc.LocalAddr().String(), Speed: speed, Timeout: T, Logger: quietLog})
@@ -407,7 +437,7 @@ func realSocketRun(kind string, b peerBehaviour, op *Op, T time.Duration, speed 
 		}
 		w := parseWire(rtu, buf[:n])
 		if w.ok {
-			b.run(w, func(x []byte) { c.Write(x) }, stop, T)
+			b.run(w, func(x []byte) { mark(); c.Write(x) }, stop, T)
 		}
 		select {
 		case <-stop:
